@@ -60,7 +60,7 @@ def run(ctx):
         raise vlib.ToolError("exported %d of %d configurations" % (len(cfgs), r.distinct))
     with open(ctx.path("cfgs.json"), "w") as fh:
         json.dump(cfgs, fh)
-    ctx.harness("./c37", "TestValidate", env={"VERIF_REPS": ctx.pick(1, 2), "VERIF_RICH": ctx.pick(150, 1500)},
+    ctx.harness("./c37", "TestValidate", env={"VERIF_REPS": ctx.pick(1, 1), "VERIF_RICH": ctx.pick(150, 1500)},
                 timeout=1500)
     st = json.load(open(ctx.path("stats.json")))
     ctx.log("harness: %d concrete configurations validated (%d accepted, %d rejected), %d round trips"
